@@ -368,6 +368,8 @@ def str_features(t):
             feats.add("reflect-string-named-pointer-extra-star")
         if k == "struct" and any(fl[2] for fl in n[1]) and not in_targ:
             feats.add("reflect-string-struct-tag-dropped")
+        if k == "map" and es(n[1]):
+            feats.add("reflect-string-map-pointer-key-star-dropped")
         if k == "chan" and n[1] == "both" and n[2][0] == "chan" and n[2][1] == "recv" and not in_targ:
             feats.add("reflect-string-chan-of-recv-chan-parens")
         if in_targ and k == "named" and n[1] == "main":
@@ -428,7 +430,7 @@ class Gen:
                     # embedded field: a named (non-pointer, non-interface-pointer) type or pointer to one
                     cand = r.choice(NAMED_POOL)
                     u = underlying(cand)
-                    if cand[1] is not None and u[0] != "ptr" and not cand[3]:
+                    if cand[1] is not None and u[0] != "ptr" and not cand[3] and (u[0] != "iface" or cand[2] == "Strer"):
                         if r.random() < 0.4 and u[0] != "iface":
                             ft = ("ptr", cand)
                         else:
@@ -481,7 +483,8 @@ FIXED_TYPES = [
     B("bool"), B("int"), B("uint8"), B("byte"), B("rune"), B("float32"), B("complex128"), B("string"), B("uintptr"),
     B("unsafe.Pointer"), ("ptr", I_), ("ptr", ("ptr", I_)), ("ptr", ("ptr", ("ptr", S_))),
     ("ptr", N("main", "P")), ("ptr", ("ptr", N("main", "P"))), ("slice", N("main", "P")), ("ptr", N("main", "PP")),
-    ("ptr", N("main", "PS")), ("map", N("main", "P"), N("pkgb", "Ptr")),
+    ("ptr", N("main", "PS")), ("map", N("main", "P"), N("pkgb", "Ptr")), ("map", ("ptr", I_), S_),
+    ("map", ("ptr", N("main", "Emb")), ("slice", ("ptr", ("ptr", I_)))), ("map", ("ptr", ("ptr", S_)), I_),
     ("slice", ("ptr", N("main", "Rec"))), ("array", 0, ("func", [], [], False)), ("array", 4, ("ptr", N("pkgb", "Item"))),
     ("map", S_, ("slice", ("ptr", I_))), ("map", ("array", 2, S_), ("struct", [])),
     ("chan", "both", I_), ("chan", "send", I_), ("chan", "recv", I_),
@@ -526,6 +529,135 @@ def all_types(seed, nrand):
     return ts
 
 
+def has_emb_ref(t, seen=()):
+    """does the value tree of t contain a struct with an embedded pointer or interface field
+    (promoted methods would dereference nil in the printable zero-ish values)"""
+    k = t[0]
+    if k == "named":
+        key = (t[1], t[2], repr(t[3]))
+        if key in seen or t[1] is None:
+            return False
+        return has_emb_ref(underlying(t), seen + (key,))
+    if k in ("ptr", "slice"):
+        return has_emb_ref(t[1], seen)
+    if k in ("array", "chan"):
+        return has_emb_ref(t[2], seen)
+    if k == "map":
+        return has_emb_ref(t[1], seen) or has_emb_ref(t[2], seen)
+    if k == "struct":
+        for n, emb, tag, ft in t[1]:
+            if emb and underlying(ft)[0] in ("ptr", "iface"):
+                return True
+            if has_emb_ref(ft, seen):
+                return True
+    return False
+
+
+FMT_METHODS = ("String", "Error", "GoString", "Format")
+
+
+def val_stringer(t, seen=()):
+    """does the value method set of t hold a fmt-relevant method whose call through a nil *t dereferences"""
+    if t[0] == "named" and t[1] is not None:
+        key = (t[1], t[2])
+        if key in seen:
+            return False
+        d = DECLS[key]
+        for (mn, ptr, ps, rs, v, body) in d["methods"]:
+            if mn in FMT_METHODS and (not ptr or key == ("main", "ErrT")):
+                return True
+        return val_stringer(underlying(t), seen + (key,))
+    if t[0] == "struct":
+        return any(emb and ft[0] != "ptr" and val_stringer(ft, seen) for n, emb, tag, ft in t[1])
+    return False
+
+
+def nil_stringer_risk(t, seen=()):
+    """a printable value of t may hold a nil pointer to a type with such a method (fmt would call it)"""
+    k = t[0]
+    if k == "named":
+        key = (t[1], t[2], repr(t[3]))
+        if key in seen or t[1] is None:
+            return False
+        return nil_stringer_risk(underlying(t), seen + (key,))
+    if k == "ptr":
+        return val_stringer(t[1]) or nil_stringer_risk(t[1], seen)
+    if k == "slice":
+        return nil_stringer_risk(t[1], seen)
+    if k in ("array", "chan"):
+        return nil_stringer_risk(t[2], seen)
+    if k == "map":
+        return nil_stringer_risk(t[1], seen) or nil_stringer_risk(t[2], seen)
+    if k == "struct":
+        return any(nil_stringer_risk(f[3], seen) for f in t[1])
+    return False
+
+
+def value_features(t):
+    """features of the expanded type (through declarations) that explain differences of value-level probes"""
+    fs = set()
+    seen = set()
+
+    def go(t, in_targ=False):
+        k = t[0]
+        if k == "named":
+            if t[1] is None:
+                return
+            u = underlying(t)
+            if u[0] == "func":
+                fs.add("named-func")
+            for a in t[3]:
+                if a[0] in ("struct", "func") or (a[0] == "iface" and a[1]):
+                    fs.add("typearg-literal")
+                go(a, True)
+            key = (t[1], t[2], repr(t[3]))
+            if key in seen:
+                return
+            seen.add(key)
+            for (mn, ptr, ps, rs, v, body) in DECLS[(t[1], t[2])]["methods"]:
+                if exported(mn) and ord(mn[0]) >= 0x80:
+                    fs.add("nonascii-method")
+            go(u)
+        elif k in ("ptr", "slice"):
+            go(t[1])
+        elif k in ("array", "chan"):
+            go(t[2])
+        elif k == "map":
+            go(t[1])
+            go(t[2])
+        elif k == "func":
+            for a in t[1] + t[2]:
+                go(a)
+        elif k == "struct":
+            for n, emb, tag, ft in t[1]:
+                if exported(n) and ord(n[0]) >= 0x80:
+                    fs.add("nonascii-field")
+                go(ft)
+        elif k == "iface":
+            for m in t[1]:
+                for a in m[1] + m[2]:
+                    go(a)
+    go(t)
+    return fs
+
+
+def contains_func(t, seen=()):
+    """does the memory layout of t contain a function value (two words under llgo)"""
+    k = t[0]
+    if k == "func":
+        return True
+    if k == "named":
+        key = (t[1], t[2], repr(t[3]))
+        if key in seen or t[1] is None:
+            return False
+        return contains_func(underlying(t), seen + (key,))
+    if k == "array":
+        return t[1] > 0 and contains_func(t[2], seen)
+    if k == "struct":
+        return any(contains_func(f[3], seen) for f in t[1])
+    return False
+
+
 # ---------------------------------------------------------------- values
 class ValGen:
     """Go expressions of a given type.  mode 'fmt': printable without addresses (nested pointers nil,
@@ -534,7 +666,8 @@ class ValGen:
     def __init__(self, seed):
         self.r = random.Random(seed)
 
-    def val(self, t, mode, d=0, top=True):
+    def val(self, t, mode, d=0, top=True, force=False):
+        """force: the value must not be nil (embedded pointer / interface in mode 'call')"""
         r = self.r
         k = t[0]
         src = gosrc(t)
@@ -548,12 +681,12 @@ class ValGen:
                 return "%s(%s)" % (src, self.basic(u[1], u[1]))
             if u[0] == "iface":
                 if (t[1], t[2]) == ("main", "Strer"):
-                    return r.choice(["Strer(nil)", "Strer(MyInt(%d))" % r.randrange(-3, 99), "Strer(pkgb.Num(4))"])
+                    return r.choice(["Strer(nil)"] * (0 if force else 1) + ["Strer(MyInt(%d))" % r.randrange(-3, 99), "Strer(pkgb.Num(4))"])
                 if (t[1], t[2]) == ("main", "Iface"):
                     return "Iface(nil)"
                 return "%s(nil)" % src
             if u[0] == "struct":
-                if d > 3:
+                if d > 3 and (mode != "call" or d > 8):
                     return src + "{}"
                 return self.struct(u, src, mode, d, foreign=(t[1] == "pkgb"))
             if u[0] in ("ptr", "func", "chan"):
@@ -561,15 +694,15 @@ class ValGen:
                 return "%s(%s)" % (src, inner) if inner != "nil" else "%s(nil)" % src
             return self.composite(u, src, mode, d)
         if k == "ptr":
-            if (mode == "fmt" and not top) or d > 3 or r.random() < 0.25:
+            if not force and ((mode == "fmt" and not top) or d > 3 or r.random() < 0.25):
                 return "(%s)(nil)" % src
             e = t[1]
             ue = underlying(e)
-            if ue[0] == "iface" or (mode == "fmt" and ue[0] not in ("struct", "array", "slice", "map")):
+            if ue[0] == "iface" or (mode == "fmt" and ue[0] not in ("struct", "array", "slice", "map") and not force):
                 return "(%s)(nil)" % src
             return "ptrOf[%s](%s)" % (gosrc(e), self.val(e, mode, d + 1, False))
         if k == "struct":
-            if d > 3:
+            if d > 3 and mode != "call":
                 return src + "{}"
             return self.struct(t, src, mode, d)
         if k == "iface":
@@ -628,11 +761,13 @@ class ValGen:
         for n, emb, tag, ft in u[1]:
             if n == "_":
                 continue
-            if self.r.random() < 0.2:
-                continue
             if foreign and not exported(n):
                 continue
-            items.append("%s: %s" % (n, self.val(ft, mode, d + 1, False)))
+            force = mode == "call" and emb and underlying(ft)[0] in ("ptr", "iface") or \
+                (mode == "call" and ft[0] == "ptr" and underlying(ft[1])[0] == "struct" and emb)
+            if self.r.random() < 0.2 and mode != "call":
+                continue
+            items.append("%s: %s" % (n, self.val(ft, mode, d + 1, False, force)))
         return src + "{" + ", ".join(items) + "}"
 
     def basic(self, name, src):
@@ -661,3 +796,137 @@ class ValGen:
         if name == "unsafe.Pointer":
             return "unsafe.Pointer(nil)"
         raise ValueError(name)
+
+
+# ---------------------------------------------------------------- program emission
+ITOA = '''
+func itoa(n int) string {
+	if n == 0 {
+		return "0"
+	}
+	neg := n < 0
+	if neg {
+		n = -n
+	}
+	s := ""
+	for n > 0 {
+		s = string(rune('0'+n%10)) + s
+		n /= 10
+	}
+	if neg {
+		s = "-" + s
+	}
+	return s
+}
+'''
+
+
+def decl_src(pkg):
+    out = []
+    for (p, name), d in DECLS.items():
+        if p != pkg:
+            continue
+        tp = ""
+        if d["tparams"]:
+            tp = "[" + ", ".join("T%d %s" % (i, c) for i, c in enumerate(d["constraints"])) + "]"
+        out.append("type %s%s %s" % (name, tp, gosrc(d["und"], pkg)))
+        recv_args = "[" + ", ".join("T%d" % i for i in range(d["tparams"])) + "]" if d["tparams"] else ""
+        for (mn, ptr, ps, rs, variadic, body) in d["methods"]:
+            pl = []
+            for i, pt in enumerate(ps):
+                if variadic and i == len(ps) - 1:
+                    pl.append("a%d ...%s" % (i, gosrc(pt[1], pkg)))
+                else:
+                    pl.append("a%d %s" % (i, gosrc(pt, pkg)))
+            res = ""
+            if len(rs) == 1:
+                res = " " + gosrc(rs[0], pkg)
+            elif rs:
+                res = " (" + ", ".join(gosrc(r, pkg) for r in rs) + ")"
+            out.append("func (x %s%s%s) %s(%s)%s { %s }" % ("*" if ptr else "", name, recv_args, mn, ", ".join(pl), res, body))
+        out.append("")
+    return "\n".join(out)
+
+
+def sub_go():
+    return ("package pkgb\n\n" + decl_src("pkgb") + "\nvar Hid = hid{Z: 5}\n\n"
+            "func NewItem(id int, note string) Item { return Item{ID: id, note: note} }\n" + ITOA)
+
+
+def types_go(types):
+    s = 'package main\n\nimport (\n\t"unsafe"\n\n\tpkgb "%s"\n)\n\nvar _ unsafe.Pointer\nvar _ = pkgb.Hid\n\n' % PKGB_PATH
+    s += decl_src("main") + ITOA + "\n"
+    for i, t in enumerate(types):
+        s += "var v%d %s\n" % (i, gosrc(t))
+    return s
+
+
+VERBS_BY_KIND = {
+    "int": "dxXobcqUvs", "uint": "dxXobcqUv", "float": "eEfFgGvxd", "string": "sqxXvd", "bool": "tvd", "complex": "vfeg",
+}
+
+
+def rand_formats(seed, n):
+    r = random.Random(seed * 7919 + 13)
+    vg = ValGen(seed + 5)
+    out = []
+    for i in range(n):
+        kind = r.choice(["int", "int", "uint", "float", "float", "float", "string", "string", "bool", "complex"])
+        tname = {"int": r.choice(INTS + ["rune"]), "uint": r.choice(UINTS + ["byte"]), "float": r.choice(FLOATS),
+                 "string": "string", "bool": "bool", "complex": r.choice(["complex64", "complex128"])}[kind]
+        flags = "".join(f for f in "+-# 0" if r.random() < 0.25)
+        width = r.choice(["", "", "1", "3", "8", "12", "20"])
+        prec = r.choice(["", "", "", ".0", ".1", ".3", ".10", "."])
+        verb = r.choice(VERBS_BY_KIND[kind])
+        f = "%" + flags + width + prec + verb
+        out.append((f, vg.basic(tname, tname)))
+    return out
+
+
+def main_gen_go(types, seed, nvals):
+    vg = ValGen(seed)
+    vd1 = ValGen(seed + 1)
+    vd2 = ValGen(seed + 2)
+    vc = ValGen(seed + 3)
+    fns, body = [], []
+    for i, t in enumerate(types):
+        body.append('\tdescType("T%d", reflect.TypeOf(&v%d).Elem())' % (i, i))
+    vals = []
+    for i, t in enumerate(types):
+        if i >= nvals:
+            break
+        src = gosrc(t)
+        a = vg.val(t, "fmt")
+        d1s = vd1.r.getstate()
+        d1 = vd1.val(t, "deep")
+        d2 = vd2.val(t, "deep")
+        cval = vc.val(t, "call", force=True)
+        fns.append("func mkA%d() %s { return %s }" % (i, src, a))
+        fns.append("func mkC%d() %s { return %s }" % (i, src, cval))
+        fns.append("func mkD%d() %s { return %s }" % (i, src, d1))
+        fns.append("func mkE%d() %s { return %s }" % (i, src, d2))
+        if not has_emb_ref(t) and not nil_stringer_risk(t):
+            body.append('\tfmtProbe("V%d", mkA%d())' % (i, i))
+        body.append('\tcallAll("V%d", reflect.ValueOf(mkC%d()))' % (i, i))
+        if underlying(t)[0] != "iface":
+            body.append('\tcallAll("V%dp", reflect.ValueOf(ptrOf(mkC%d())))' % (i, i))
+        body.append('\tdeq("V%d.self", mkD%d(), mkD%d())' % (i, i, i))
+        body.append('\tdeq("V%d.other", mkD%d(), mkE%d())' % (i, i, i))
+        body.append('\tattr("V%d.deep", "dump", func() string { return dump(reflect.ValueOf(mkD%d()), 0) })' % (i, i))
+        vals.append(dict(i=i, fmt=a, d1=d1, d2=d2))
+    body += ["\tstaticDeepEqual()", "\tstaticConvert()", "\tstaticSetGet()", "\tstaticFmt()"]
+    rfs = rand_formats(seed, 250)
+    for i, (f, v) in enumerate(rfs):
+        body.append('\tattr("RF.%d", %s, func() string { return fmt.Sprintf(%s, %s) })' % (i, goquote("fmt" + f), goquote(f + "|"), v))
+    s = "package main\n\nimport (\n\t\"fmt\"\n\t\"math\"\n\t\"reflect\"\n\t\"unsafe\"\n\n\tpkgb \"%s\"\n)\n\n" % PKGB_PATH
+    s += "var _ = math.Inf\nvar _ unsafe.Pointer\nvar _ = pkgb.Hid\nvar _ = fmt.Sprint\n\n"
+    s += "\n".join(fns) + "\n\nfunc main() {\n" + "\n".join(body) + "\n}\n"
+    return s, vals, rfs
+
+
+def program(seed, nrand, static_main):
+    types = all_types(seed, nrand)
+    mg, vals, rfs = main_gen_go(types, seed, len(types))
+    files = {"types.go": types_go(types), "main.go": static_main, "main_gen.go": mg,
+             "sub/inner/pkgb.go": sub_go()}
+    return types, files, vals, rfs
